@@ -1214,7 +1214,7 @@ ACC_FILES = [
 #   elem  "str" | type name
 SHAPES = ["str", "typed", "list", "flagYes", "flagYesNo", "flagYesOrRemove", "firstLine", "restLines",
           "license", "licenseBareText", "licenseName", "licenseText", "originField", "rfc2822", "dateYmd",
-          "envMap", "vcsScan", "bugsScan", "headerFix", "firstPara", "filterParaWithout", "findPara", "filterPara", "addPara", "composite", "derived", "opaque"]
+          "envMap", "vcsScan", "bugsScan", "headerFix", "firstPara", "filterParaWithout", "findPara", "filterPara", "filterParaTail", "filterParaWithoutTail", "addPara", "composite", "derived", "opaque"]
 
 PARA_OPS = {"get": "get", "get_all": "getAll", "set": "set", "insert": "insert", "remove": "remove",
             "rename": "rename", "contains_key": "contains", "items": "items", "paragraphs": "paragraphs",
@@ -1562,6 +1562,14 @@ def classify_getter(me, helpers, where):
     if m:
         return {"kind": "get", "op": "paragraphs", "clearOp": "none", "names": [lit(m.group(2), where)],
                 "shape": ("filterParaWithout", lit(m.group(1), where)), "strict": False, "absent": "default", "optional": False}
+    m = re.fullmatch(r"self\.0\.paragraphs\(\)\.skip\(1\)\.filter\(\|_1\|!_1\.contains_key\(" + NAME + r"\)&&_1\.contains_key\(" + NAME + r"\)\)\.map\((\w+)\)", b)
+    if m:
+        return {"kind": "get", "op": "paragraphs", "clearOp": "none", "names": [lit(m.group(2), where)],
+                "shape": ("filterParaWithoutTail", lit(m.group(1), where)), "strict": False, "absent": "default", "optional": False}
+    m = re.fullmatch(r"self\.0\.paragraphs\(\)\.skip\(1\)\.filter\(\|_1\|_1\.contains_key\(" + NAME + r"\)\)\.map\((\w+)\)", b)
+    if m:
+        return {"kind": "get", "op": "paragraphs", "clearOp": "none", "names": [lit(m.group(1), where)],
+                "shape": ("filterParaTail",), "strict": False, "absent": "default", "optional": False}
     # first `Vcs-<X>` field other than Vcs-Browser, through Vcs::from_field(<X>, value)
     if b == 'for(name,value)in self.0.items(){if name=="Vcs-Browser"{continue;}if let Some(vcs)=name.strip_prefix("Vcs-"){return crate::vcs::Vcs::from_field(vcs,&value).ok();}}None':
         return {"kind": "get", "op": "items", "clearOp": "none", "names": [], "shape": ("vcsScan",),
@@ -1799,8 +1807,8 @@ def lean_shape(sh):
     if sh[0] == "list":
         elem = ".str" if sh[3] == "str" else f"(.typed {lean_str(sh[3])})"
         return f"(.list .{sh[1]} {'true' if sh[2] else 'false'} {elem})"
-    if sh[0] == "filterParaWithout":
-        return f"(.filterParaWithout {lean_str(sh[1])})"
+    if sh[0] in ("filterParaWithout", "filterParaWithoutTail"):
+        return f"(.{sh[0]} {lean_str(sh[1])})"
     return f".{sh[0]}"
 
 
@@ -1809,7 +1817,7 @@ def json_shape(sh):
         return {"tag": "typed", "ty": sh[1]}
     if sh[0] == "list":
         return {"tag": "list", "sep": sh[1], "trim": sh[2], "elem": sh[3]}
-    if sh[0] == "filterParaWithout":
+    if sh[0] in ("filterParaWithout", "filterParaWithoutTail"):
         return {"tag": sh[0], "ty": sh[1]}
     return {"tag": sh[0]}
 
